@@ -8,14 +8,14 @@ Tie: the SAME driver source (harness/c43_driver.cpp) is built against the GMP bu
   * model != Boost build   => the tie is broken (the model transcribes mp_boost.cpp)."""
 import vlib
 
-PROOF_MODULES = []      # C43 files are not in coq/_CoqProject yet: compiled directly, in the order ORDER
 ORDER = ["C43/MpModel.v", "C43/MpSpec.v", "C43/MpLoop.v", "C43/MpDiv.v", "C43/MpGcd.v", "C43/MpGcdNorm.v", "C43/MpPowm.v",
          "C43/MpRoot.v", "C43/MpFib.v", "C43/MpBin.v", "C43/MpPrime.v", "C43/MpJacobi.v"]
+PROOF_MODULES = [f[:-2] + ".vo" for f in ORDER]
 OBLIGATIONS = ["C43/P_%s.v" % n for n in (
     "fdiv_qr_spec", "fdiv_qr_floor", "cdiv_qr_spec", "cdiv_qr_ceiling", "tdiv_qr_spec", "divisible_spec", "scan1_spec",
-    "gcdext_bezout", "gcdext_spec", "invert_spec", "powm_spec", "powm_spec_neg", "root_spec", "root_errors", "rootrem_spec", "sqrt_spec",
+    "gcdext_bezout", "gcdext_spec", "gcdext_spec_unique", "invert_spec", "powm_spec", "powm_spec_neg", "root_spec", "root_errors", "rootrem_spec", "sqrt_spec",
     "sqrtrem_spec", "perfect_square_spec", "fib_spec", "fib2_spec", "lucnum_spec", "lucnum2_spec", "fac_spec", "bin_spec", "binom_fact",
-    "probab_prime_spec", "nextprime_partial", "perfect_power_partial", "jacobi_total", "jacobi_spec_relative", "kronecker_spec_relative",
+    "probab_prime_spec", "nextprime_partial", "nextprime_total_bertrand", "perfect_power_partial", "jacobi_total", "jacobi_spec_relative", "kronecker_spec_relative",
     "jacobi_definition_small", "kronecker_definition_small", "refuted", "nonvacuous")]
 
 PRIMES_SMALL = [3, 5, 7, 11, 13, 17, 19, 23, 29, 31, 37, 41, 43, 47, 53, 59, 61, 67, 71, 73, 79, 83, 89, 97, 101, 103, 107, 109, 113,
@@ -253,7 +253,7 @@ def gen_nt(rng):
         return "nt powermod %d %d %d %d" % (zany(rng, 64), rng.randint(-20, 40), rng.choice([1, 1, 2, 3]), m)
     if f in ("factor", "prime_factors", "totient", "carmichael", "mobius"):
         v = rng.choice([small(), rng.choice(PRIMES_SMALL) * rng.choice(PRIMES_SMALL) * rng.choice([1, 2, 4, 9]), rng.getrandbits(40) + 2,
-                        rng.choice(PRIMES_BIG[:4]) * rng.choice(PRIMES_SMALL)])
+                        rng.choice(PRIMES_BIG[:3]) * rng.choice(PRIMES_SMALL)])     # trial division: keep sqrt(n) small
         return "nt %s %d" % (f, v)
     if f == "primitive_root":
         p = rng.choice(PRIMES_SMALL)
@@ -445,8 +445,8 @@ def run(ctx):
         return
     quick = ctx.tier == "quick"
     cases = list(CORPUS)
-    cases += [gen_case(ctx.rng, ctx.tier) for _ in range(2600 if quick else 60000)]
-    cases += workload(ctx.rng, 150 if quick else 3000)
+    cases += [gen_case(ctx.rng, ctx.tier) for _ in range(2600 if quick else 20000)]
+    cases += workload(ctx.rng, 150 if quick else 1500)
     if not quick:
         cases += ["ppow %d" % v for v in range(-1100, 1101)] + ["isprime %d" % v for v in range(0, 3000)]
         cases += ["jacobi %d %d" % (a, n) for n in range(1, 60, 2) for a in range(-n, 2 * n)]
